@@ -15,6 +15,7 @@ EXPLANATION = (
     "command line. Agreement of the sub-commands follows because they then compute the same function of the source "
     "under the same flag."
     ' R1e also: the Err side of a stage result never reaches an Ok return of a Result-returning command. R2 also: a flag-reading closure is only handed to callees that run it on the initialising thread (core/alloc, std outside std::thread, hotwatch::blocking) unless it initialises the flag itself. R4: the text handed to the assembler is read from the path the command names (field, capture or parameter), not from a path computed elsewhere. R5: behind the test of the file extension against "asm" every success path passes all four stages - a source is never run from a stored object or unassembled. R6: every unit prepares the text it hands to the assembler the same way (the calls between read_to_string and StaticSource::new are the same set everywhere).'
+    " R7: from the successful outcome of every read of a source text, every way to a normal return passes a validating call (a unit never answers for a text without assembling it). R1s follows the success message into helpers of the binary."
 )
 NOT_DECIDED = "nothing of substance: the property is decided by R1-R3 (agreement = same stages, same flag)"
 
@@ -464,4 +465,39 @@ def run(ctx):
                       "the units do not prepare the source text the same way: %s - a file one of them accepts after its own preparation is judged raw by the other(s)"
                       % "; ".join("%s: %s" % ([w[0] for w in v], ", ".join(k) or "the text as read") for k, v in sorted(shapes6.items())))
     ctx.need(sum(len(v) for v in shapes6.values()) >= 3, "StaticSource::new sites in the binary")
+    ctx.finish_rule()
+
+    # ------------------------------------------------------------------ R7
+    # a text that was read is judged by assembling it, by nothing else: from the successful outcome of every read of a source text, every
+    # way to a normal return passes a call that runs the validation (the failure of the read itself is handed up or ends the process).
+    # A unit that answers for some texts - the empty one, an unchanged one - without assembling gives a verdict check / compile / run
+    # never give
+    ctx.rule("C07.R7", "every source text that was read is assembled before the unit answers", floor=3)
+    n7 = 0
+    for n, f in sorted(prog.fns.items()):
+        if f.bkind != "fn" or not n.startswith("bin::"):
+            continue
+        stage_calls = set()
+        for b, t, c in f.calls():
+            if c in STAGES or c in sa.may or any((cl[3:] if cl.startswith("fn:") else cl) in sa.may for cl in t["f"].get("closures", [])):
+                stage_calls.add(b)
+        if not stage_calls:
+            continue
+        errb = kit.error_blocks(f)
+        rets = {b for b in f.live_blocks() if f.term(b)["k"] == "return"}
+        for b, t, c in f.calls():
+            if not (c and c.endswith("std::fs::read_to_string")) or t.get("t") is None:
+                continue
+            if not (f.reachable(t["t"]) & stage_calls):
+                continue          # a read that has nothing to do with assembling
+            n7 += 1
+            ctx.instance(1)
+            lost = f.reachable(t["t"], avoid=stage_calls | errb) & rets
+            pth = f.path(t["t"], lost, avoid=stage_calls | errb) if lost else None
+            ctx.oblig(not lost, {"read in": short(n), "at": sp_file_line(t.get("sp"))}, "every return behind a validating call (or the read's own failure)")
+            if lost:
+                ctx.violation("read-not-assembled|%s" % short(n), sp_file_line(t.get("sp")),
+                              "`%s` can answer for a text it has read without assembling it (lines %s): for such a text its verdict is not the one check, compile "
+                              "and run give" % (short(n), f.path_lines(pth) if pth else "?"))
+    ctx.need(n7 >= 3, "reads of a source text that lead to an assembly (found %d)" % n7)
     ctx.finish_rule()
